@@ -85,7 +85,7 @@ func main() {
 		},
 		Post: func(c *ev.Check, outs []*run.Outcome) {
 			for _, k := range []string{"archives_verified", "gap.cases_200", "gap.bursts_effective", "gapreg.cases_200", "gapreg.empty_key_archives",
-				"conc.archives_with_concurrent_append", "conc.runs", "rate.decisive_bursts", "rate.staggered_on_schedule", "rate.held_in_time", "rate.status_200", "rate.status_429", "rate.requests_from_other_source_addresses",
+				"conc.archives_with_concurrent_append", "conc.runs", "rate.decisive_bursts", "rate.staggered_on_schedule", "rate.held_in_time", "rate.status_200", "rate.status_429", "rate.requests_from_other_source_addresses", "rate.sustained_requests",
 				"verified.reports", "verified.authorizations", "verified.stats_records", "verified.entries", "prefix_checks_after_quiescence", "privkey_scans",
 				"hunt.archives", "statsappend.chased_requests", "tornstart.started", "tornstart.archives", "fifo.parked", "shortwrite.episodes", "shortwrite.archives"} {
 				c.Require(k, 1)
@@ -2964,6 +2964,27 @@ func childRate(b run.Batch, r *ev.Result) {
 		} else {
 			r.Count("rate.held_slipped", 1)
 		}
+	}
+	// sustained saturation: ten callers ask back to back over several windows, so at every instant
+	// at which an admission leaves the window several requests are just arriving or just being decided
+	if time.Since(born) < serverLife {
+		run.Op("rate: sustained saturation, 12 callers x 40 GETs, 0-15 ms apart")
+		var wg sync.WaitGroup
+		for g := 0; g < 12; g++ {
+			wg.Add(1)
+			pause := rand.New(rand.NewSource(b.Seed + int64(g)*7919))
+			go func() {
+				defer wg.Done()
+				for i := 0; i < 40; i++ {
+					time.Sleep(time.Duration(pause.Intn(15000)) * time.Microsecond) // admissions spread over the window, arrivals at every instant
+					if st, _, err := w.f.get(9000); err == nil && st == 200 {
+						r.Count("rate.sustained_200", 1)
+					}
+					r.Count("rate.sustained_requests", 1)
+				}
+			}()
+		}
+		wg.Wait()
 	}
 	judgeRate(w.v, w.f, "rate")
 	r.Sample(map[string]interface{}{"kind": "rate", "burst_sizes": sizes, "staggered_patterns": nPat, "limit": c.ApiArchiveLimit, "window": c.ApiArchiveRate.String()})
